@@ -20,7 +20,7 @@ func init() { core.Register(c02{}) }
 func (c02) ID() string    { return "C02" }
 func (c02) Level() string { return "exploration" }
 func (c02) Rule() string {
-	return "all ordered triples (a,b,c) of a version pool (K=156 quick, 236 thorough: special equivalence-class mates, tilde chains, long digit runs, epochs, all strings of length<=1 over 019Aa~+-.: as upstream and revision, seeded random and near versions) checked for reflexivity, antisymmetry, transitivity and congruence of equal elements using only version.Compare; slices of 0..200 pool elements sorted with sort.Sort(version.Slice) from 3 shuffles. Non-trivial = triple with pairwise different texts, or slice with >=2 distinct elements; distinct by hash."
+	return "all ordered triples (a,b,c) of a version pool (K=162 quick, 242 thorough: special equivalence-class mates, tilde chains, long digit runs, epochs, all strings of length<=1 over 019Aa~+-.: as upstream and revision, seeded random and near versions) checked for reflexivity, antisymmetry, transitivity and congruence of equal elements using only version.Compare; slices of 0..200 pool elements sorted with sort.Sort(version.Slice) from 3 shuffles. Non-trivial = triple with pairwise different texts, or slice with >=2 distinct elements; distinct by hash."
 }
 func (c02) Assumptions() []string {
 	return []string{"no reference order is used: laws only", "sort.Sort from the Go standard library"}
@@ -79,6 +79,8 @@ var c02Specials = []string{
 	// zeros in front of a non-digit at the start of a revision or of an upstream tail (round 7): "0~rc1" is the
 	// number 0 followed by ~rc1, "~rc1" starts with the tilde itself
 	"1.0-0~rc1", "1.0-~rc1", "1.0-0", "2-0a", "2-a", "2-00", "2-0~", "2-~", "3.0a", "3.a", "3.00a",
+	// the digit 9 (the last of its range) against letters and longer numbers (round 8)
+	"1.9", "1.a", "1.10", "1.8", "2-9", "2-a", "2-10",
 	"1:0", "1:1.0", "2:0", "1.0a", "1.0A", "1.0.", "1.0+", "1.0~", "1.0-a", "1.0-+", "1.0-~", "1a1", "1a01", "1a~", "1aa",
 }
 
@@ -95,7 +97,7 @@ func c02Pool(tier string, seed uint64) []model.Ver {
 	for _, s := range c02Specials {
 		add(splitText(s))
 	}
-	K := tierN(tier, 156, 236)
+	K := tierN(tier, 162, 242)
 	if tier == "thorough" {
 		for _, s := range gen.AllStrings(gen.ClassAlphabet, 1) {
 			add(model.Ver{Upstream: s})
